@@ -502,7 +502,7 @@ def correspondence(ctx, harness, modeld, hello, n_bases, n_mut, cfg):
 
 # ------------------------------------------------------------------------------------------ e2e modules and histories (tie B-E)
 MODNAME = "verifprog"
-PKGS = ["c", "b", "a"]          # build order of the non-main packages: c <- b, c <- a, (a, b) <- main
+PKGS = ["c", "ext", "b", "a"]   # the cached packages in build order: c <- ext, c <- b, (c, ext) <- a, (a, b) <- main
 
 
 def filler(pkg, n):
@@ -527,7 +527,7 @@ class Mod:
         self.root = root
         self.rng = rng
         self.nfill = nfill
-        self.c = {"main": 100, "a": 200, "b": 400, "c": 500, "cside": 300, "extra": 700, "cfg": 21}
+        self.c = {"main": 100, "a": 200, "b": 400, "c": 500, "cside": 300, "extra": 700, "cfg": 21, "ext": 11}
         self.envx = {}         # extra environment for every build of the module (LLGO_* switches)
         self.has_extra = False
         self.tagx = False
@@ -554,16 +554,25 @@ class Mod:
             # a decl-only package (cl.PkgDeclOnly): never compiled, no archive; its constants and types live in its importers
             return ('package cfg\n\nconst LLGoPackage = "decl"\n\nconst Size = %d\n\ntype Buf struct {\n\tA [Size]byte\n}\n' % c["cfg"])
         if rel == "a/a.go":
-            return ('package a\n\nimport (\n\t_ "unsafe"\n\n\t"%s/c"\n)\n\nconst LLGoFiles = "_wrap/w.c"\n\nconst Src = %d\n\n'
+            return ('package a\n\nimport (\n\t_ "unsafe"\n\n\t"%s/c"\n\t"%s/ext"\n)\n\nconst LLGoFiles = "_wrap/w.c"\n\nconst Src = %d\n\n'
                     '//go:linkname cval C.verif_a_cval\nfunc cval() int32\n\n//go:linkname kval C.verif_a_kval\nfunc kval() int32\n\n'
                     '//go:linkname optval C.verif_a_opt\nfunc optval() int32\n\n'
                     'var XA = "xa-default"\n\n%s\n// Main prints what package main computed (main itself must stay free of runtime calls)\n'
                     'func Main(src, fill, cfgsize int) {\n\tprintln("main.src", src)\n\tprintln("main.fill", fill)\n\tprintln("main.cfg", cfgsize)\n}\n\n'
                     'func Report() {\n\tm := map[string]int{"src": Src}\n\tdefer func() { println("a.defer", m["src"]+len(m)) }()\n'
                     '\tprintln("a.src", Src)\n\tprintln("a.cside", cval())\n\tprintln("a.k", kval())\n'
-                    '\tprintln("a.opt", optval())\n'
+                    '\tprintln("a.opt", optval())\n\tprintln("a.exta", ext.A())\n\tprintln("a.extb", ext.B())\n'
                     '\tprintln("a.x", XA)\n\tprintln("a.tag", tagval)\n\tprintln("a.fill", fill())\n\tprintln("a.cc", c.Const)\n\tc.Report()\n}\n'
-                    % (MODNAME, c["a"], filler("a", self.nfill)))
+                    % (MODNAME, MODNAME, c["a"], filler("a", self.nfill)))
+        if rel == "ext/ext.go":
+            # a binding package whose link directive REPEATS a token (-Xlinker twice): the symbols exist only if the link line of
+            # the build carries both --defsym options, each behind its own -Xlinker.  It imports c so that it is rebuilt
+            # whenever c is (a step in which c, b, a are compiled then compiles every cached package of the module).
+            return ('package ext\n\nimport (\n\t"unsafe"\n\n\t"%s/c"\n)\n\n'
+                    'const LLGoPackage = "link: -Xlinker --defsym=verif_ext_a=%d -Xlinker --defsym=verif_ext_b=%d"\n\n'
+                    '//go:linkname extA verif_ext_a\nvar extA byte\n\n//go:linkname extB verif_ext_b\nvar extB byte\n\n'
+                    'func A() uintptr { return uintptr(unsafe.Pointer(&extA)) + uintptr(c.Const-c.Const) }\n\n'
+                    'func B() uintptr { return uintptr(unsafe.Pointer(&extB)) }\n' % (MODNAME, c["ext"], c["ext"] + 11))
         if rel == "a/t_on.go":
             return "//go:build tagx\n\npackage a\n\nconst tagval = 1\n"
         if rel == "a/t_off.go":
@@ -584,7 +593,7 @@ class Mod:
         raise KeyError(rel)
 
     def files(self):
-        fs = ["go.mod", "main.go", "a/a.go", "a/t_on.go", "a/t_off.go", "a/_wrap/w.c", "b/b.go", "c/c.go", "cfg/cfg.go"]
+        fs = ["go.mod", "main.go", "a/a.go", "a/t_on.go", "a/t_off.go", "a/_wrap/w.c", "b/b.go", "c/c.go", "cfg/cfg.go", "ext/ext.go"]
         if self.has_extra:
             fs.append("a/extra.go")
         return fs
@@ -621,8 +630,8 @@ class Mod:
     RESP = {"main.src": "main.go", "main.fill": "main.go", "a.src": "a/a.go", "a.cside": "a/_wrap/w.c", "a.k": "env:CCFLAGS", "a.x": "flag:-X",
             "a.tag": "flag:-tags", "a.fill": "a/a.go", "a.cc": "c/c.go", "a.extra": "a/extra.go", "c.src": "c/c.go", "c.fill": "c/c.go",
             "b.src": "b/b.go", "b.cc": "c/c.go", "b.cv": "c/c.go", "b.fill": "b/b.go", "main.cfg": "cfg/cfg.go", "c.cfg": "cfg/cfg.go",
-            "a.opt": "flag:-O", "a.defer": "a/a.go", "main.trace": "env:LLGO_TRACE", "a.trace": "env:LLGO_TRACE", "b.trace": "env:LLGO_TRACE", "c.trace": "env:LLGO_TRACE"}
-    CONST_OF = {"main.go": "main", "a/a.go": "a", "b/b.go": "b", "c/c.go": "c", "a/_wrap/w.c": "cside", "a/extra.go": "extra", "cfg/cfg.go": "cfg"}
+            "a.opt": "flag:-O", "a.defer": "a/a.go", "a.exta": "ext/ext.go", "a.extb": "ext/ext.go", "main.trace": "env:LLGO_TRACE", "a.trace": "env:LLGO_TRACE", "b.trace": "env:LLGO_TRACE", "c.trace": "env:LLGO_TRACE"}
+    CONST_OF = {"main.go": "main", "a/a.go": "a", "b/b.go": "b", "c/c.go": "c", "a/_wrap/w.c": "cside", "a/extra.go": "extra", "cfg/cfg.go": "cfg", "ext/ext.go": "ext"}
 
     def expected(self):
         """what the program must print, by construction (sanity check of the oracle, not the oracle)"""
@@ -631,7 +640,7 @@ class Mod:
         if self.has_extra:
             out.append("a.extra %d" % c["extra"])
         out += ["main.src %d" % c["main"], "main.fill %d" % expected_fill(2), "main.cfg %d" % c["cfg"], "a.src %d" % c["a"], "a.cside %d" % c["cside"],
-                "a.k %d" % (1 if self.K is None else self.K), "a.opt %d" % (0 if self.opt == "-O0" else 1),
+                "a.k %d" % (1 if self.K is None else self.K), "a.opt %d" % (0 if self.opt == "-O0" else 1), "a.exta %d" % c["ext"], "a.extb %d" % (c["ext"] + 11),
                 "a.x %s" % ("xa-default" if self.xa is None else self.xa),
                 "a.tag %d" % (1 if self.tagx else 0), "a.fill %d" % expected_fill(self.nfill), "a.cc %d" % c["c"], "c.src %d" % c["c"],
                 "c.cfg %d" % (2 * c["cfg"]), "c.fill %d" % expected_fill(self.nfill), "a.defer %d" % (c["a"] + 1), "b.src %d" % c["b"], "b.cc %d" % c["c"], "b.cv %d" % (c["c"] + 1),
@@ -731,6 +740,10 @@ class Mod:
         pc = default_P(MODNAME + "/c", "c")
         pc["gofiles"] = [gf("c/c.go")]
         pc["deps"] = [MODNAME + "/cfg"]
+        pext = default_P(MODNAME + "/ext", "ext")
+        pext["kind"] = "x"
+        pext["gofiles"] = [gf("ext/ext.go")]
+        pext["deps"] = [MODNAME + "/c"]
         pb = default_P(MODNAME + "/b", "b")
         pb["gofiles"] = [gf("b/b.go")]
         pb["deps"] = [MODNAME + "/c"]
@@ -739,13 +752,13 @@ class Mod:
         if self.has_extra:
             pa["gofiles"].append(gf("a/extra.go"))
         pa["sidefiles"] = [gf("a/_wrap/w.c")]
-        pa["deps"] = [MODNAME + "/c"]
+        pa["deps"] = [MODNAME + "/c", MODNAME + "/ext"]
         if self.xa is not None:
             pa["rewrites"] = [("XA", self.xa)]
         pm = default_P(MODNAME, "main")
         pm["gofiles"] = [gf("main.go")]
         pm["deps"] = [MODNAME + "/a", MODNAME + "/b", MODNAME + "/cfg"]
-        return g, [pcfg, pc, pb, pa, pm]
+        return g, [pcfg, pc, pext, pb, pa, pm]
 
 
 class Builder:
@@ -842,6 +855,25 @@ def run_history(ctx, builder, hello, modeld, hid, script, fresh_oracle, res, cfg
         before = user_archives(xdg)
         prog = os.path.join(root, "prog")
         p, cmd = builder.build(mod, xdg, prog, force=(kind == "force"))
+        if p.returncode != 0 and si > 0:
+            # the build through the cache fails: does the clean build of the same inputs work?
+            drop_user_archives(oxdg) if not fresh_oracle else (shutil.rmtree(oxdg, ignore_errors=True), os.makedirs(oxdg))
+            po, _ = builder.build(mod, oxdg, os.path.join(root, "oracle"))
+            res["oracle_builds"] += 1
+            if po.returncode == 0:
+                key = "cache:build-from-cache-fails"
+                res["stale"][key] = res["stale"].get(key, 0) + 1
+                ctx.report(key, "after `%s` the build that reuses cached archives FAILS (%s) while the clean build of the same inputs succeeds"
+                           % (desc, (p.stdout + p.stderr).strip().split("\n")[0][:200]),
+                           {"history": hid, "compiler": "harness build (build.Do + -X)" if builder.is_harness else "llgo build", "edits_so_far": list(mod.log),
+                            "step": si, "command": cmd[1:], "build_output_through_cache": (p.stdout + p.stderr)[-2000:], "env_extra": dict(mod.envx),
+                            "env_CCFLAGS_extra": None if mod.K is None else "-DK=%d" % mod.K,
+                            "cache_manifests_metadata": {os.path.relpath(f, xdg): open(f).read()[open(f).read().find("metadata:"):][:400]
+                                                         for f in glob.glob(os.path.join(xdg, "llgo", "build", "*", MODNAME, "*", "*.manifest")) if "metadata:" in open(f).read()},
+                            "module_files": {rel: open(os.path.join(mod.root, rel)).read() for rel in mod.files()},
+                            "how": "write the files, run the listed edits each followed by the command with ONE private XDG_CACHE_HOME: the last command fails; "
+                                   "the same command under an empty XDG_CACHE_HOME succeeds"})
+                break
         if p.returncode != 0:
             if targeted and si > 0:
                 # a targeted history probes settings the normal path never uses (LLGO_OPTIMIZE=off ...): a build that does not
@@ -918,7 +950,7 @@ def run_history(ctx, builder, hello, modeld, hid, script, fresh_oracle, res, cfg
             stale_to_classify = stale
         for line in stale_to_classify:
             resp = Mod.RESP.get(line, "?")
-            if resp in ("c/c.go", "a/a.go", "b/b.go", "a/extra.go", "cfg/cfg.go") and mod.is_hidden(resp):
+            if resp in ("c/c.go", "a/a.go", "b/b.go", "a/extra.go", "cfg/cfg.go", "ext/ext.go") and mod.is_hidden(resp):
                 key = KNOWN_CLASSES["mtime"]
             elif resp == "a/_wrap/w.c":
                 key = KNOWN_CLASSES["side"]
@@ -1022,6 +1054,32 @@ def run_history(ctx, builder, hello, modeld, hid, script, fresh_oracle, res, cfg
     shutil.rmtree(root, ignore_errors=True)
 
 
+def scan_map_ranges():
+    """informational (never a verdict): `for … range x` sites in the emitting packages (cl, ssa) where x is declared as a map in
+    the same package, and whether a sort follows within the next 12 lines"""
+    out = {"sites": 0, "sorted_nearby": 0, "unsorted": []}
+    for pkg in ("ssa", "cl"):
+        files = [f for f in glob.glob(os.path.join(REPO, pkg, "*.go")) if not f.endswith("_test.go")]
+        srcs = {f: open(f, errors="replace").read().split("\n") for f in files}
+        maps = set()
+        for lines in srcs.values():
+            for l in lines:
+                m = re.match(r"^\s*(\w+)\s+map\[", l) or re.match(r"^\s*(?:var\s+)?(\w+)\s*(?::=|=)\s*(?:make\()?map\[", l)
+                if m:
+                    maps.add(m.group(1))
+        for f, lines in srcs.items():
+            for i, l in enumerate(lines):
+                m = re.search(r"\brange\s+([\w.]+)\s*\{", l)
+                if m and m.group(1).split(".")[-1] in maps:
+                    out["sites"] += 1
+                    if any(re.search(r"\bsort\.|slices\.Sort", x) for x in lines[i:i + 12]):
+                        out["sorted_nearby"] += 1
+                    else:
+                        out["unsorted"].append("%s/%s:%d %s" % (pkg, os.path.basename(f), i + 1, l.strip()[:80]))
+    out["unsorted"] = out["unsorted"][:40]
+    return out
+
+
 def collect_ir(gocache):
     """{ModuleID: bytes} of the .ll files `-gen-llfiles` left next to the export files"""
     out = {}
@@ -1079,7 +1137,7 @@ def reproducibility(ctx, builder, res, rounds=2):
     shutil.rmtree(root, ignore_errors=True)
 
 
-EDIT_POOL_LLGO = [("src", "c/c.go"), ("src", "cfg/cfg.go"), ("src", "a/a.go"), ("src", "b/b.go"), ("src", "main.go"), ("tag", None), ("opt", None), ("addfile", None),
+EDIT_POOL_LLGO = [("src", "c/c.go"), ("src", "cfg/cfg.go"), ("src", "ext/ext.go"), ("src", "a/a.go"), ("src", "b/b.go"), ("src", "main.go"), ("tag", None), ("opt", None), ("addfile", None),
                   ("touch", "b/b.go"), ("revert", "c/c.go"), ("force", None), ("noop", None), ("clear", None), ("abi", None),
                   ("src-hidden", "a/a.go"), ("src-hidden", "c/c.go"), ("cside", None), ("ccflags", None)]
 # which e2e edits exercise an input kind for which the manifest correspondence found the real key too coarse.  These
@@ -1126,6 +1184,7 @@ def run(ctx, args):
                     extra_files=["LlgoVerif/Model/Cache.lean", "LlgoVerif/Lemmas/Cache.lean"], leanchecker=not quick)
     modeld = build_driver(ctx, "modeld_c13")
     harness = build_go_harness(ctx, "c13", overlay={"internal/build/zz_verif_c13.go": "overlay/zz_verif_c13.go.txt",
+                                                    "ssa/zz_verif_c13_ssa.go": "overlay/zz_verif_c13_ssa.go.txt",
                                                     "ssa/zz_verif_opaque.go": os.path.join(E2E, "overlay", "zz_verif_opaque.go.txt")},
                                tags="llvm14,verif")
     out, rc, err = run_lines([harness], ["hello"] + ["use %d" % i for i in range(6)])
@@ -1139,12 +1198,38 @@ def run(ctx, args):
     for i in range(6):
         if out[1 + i] != use_model[i]:
             broken.append("crosscompile.Use CCFLAGS for level %d: real %s, model %s" % (i, out[1 + i], use_model[i]))
+    # ---- reproducibility, in process: the same generated program compiled several times through the ssa API, then the entry
+    # module's runtime-type list requested the way internal/build genMainModule does (InitAbiTypesFor + the real
+    # filterAbiSymbol; -1 = unfiltered): entry module and user package IR must be byte-identical every time.  (Programs
+    # that make llgo emit this list use reflect.StructOf/PointerTo/Method..., which cannot be built end to end here.)
+    areq = [(6, 1, -1, 4), (6, 1, 4095, 6)] + [(ctx.rng.randrange(2, 8), ctx.rng.randrange(1000), ctx.rng.choice([4095, 1 << 4 | 1 << 6, 1 << 5, 1 | 1 << 6, 4095]), 4)
+                                              for _ in range(3 if quick else 40)]
+    aout, _, aerr = run_lines([harness], ["abitypes %d %d %d %d" % r for r in areq], cwd=os.path.dirname(harness), env=go_env())
+    abistats = {"programs": len(areq), "compilations": sum(r[3] for r in areq), "selected_descriptors": [], "differences": 0}
+    for r, o in zip(areq, aout + ["(no answer) " + aerr[-300:]] * (len(areq) - len(aout))):
+        if o.startswith("ok "):
+            abistats["selected_descriptors"].append(int(o.split()[1].split("=")[1]))
+        elif o.startswith("differs "):
+            abistats["differences"] += 1
+            f = o.split()
+            dec = lambda l: [] if l == "." else [unhexs(x).decode("utf-8", "replace") for x in l.split(",")]
+            ctx.report("repro:entry-module-type-list", "compiling the same generated program again (build #%s) emits a different %s module: the runtime type "
+                       "descriptors of init$abitypes$array come in another order" % (f[2].split("=")[1], f[1]),
+                       {"request": "abitypes %d %d %d %d" % r, "meaning": "n struct types (struct, *struct, []struct, [k]struct boxed into interfaces), seed, "
+                        "reflect-usage mask passed to the real filterAbiSymbol, repetitions", "selected_descriptors": f[3], "order_build_1": dec(f[4])[:40],
+                        "order_build_k": dec(f[5])[:40], "how": "harness/c13 line protocol (run in the harness directory): VerifEntryModule in the ssa overlay"})
+        else:
+            broken.append("abitypes request %s: %s" % (r, o[:300]))
     # ---- tie B-O (1b): the metadata stored next to an archive (need_rt, need_pyinit, link args) comes back unchanged:
     # real saveToCache followed by real tryLoadFromCache on a fresh package record with the same fingerprint
     mreq = []
     for rt in (0, 1):
         for py in (0, 1):
-            for la in ([], ["-lm"], ["-L/opt/x y", "-lfoo", "-Wl,-rpath,/a"], [rword(ctx.rng) or "-lz" for _ in range(3)]):
+            for la in ([], ["-lm"], ["-L/opt/x y", "-lfoo", "-Wl,-rpath,/a"], [rword(ctx.rng) or "-lz" for _ in range(3)],
+                       # order AND multiplicity matter on a link line
+                       ["-Xlinker", "--defsym=ext_a=11", "-Xlinker", "--defsym=ext_b=22"], ["-lfoo", "-lbar", "-lfoo"],
+                       ["-framework", "CoreFoundation", "-framework", "Security"], ["-L", "d1", "-l", "a", "-L", "d2", "-l", "b"],
+                       ["-lz", "-lz"], ["-lb", "-la"], [ctx.rng.choice(["-lm", "-Xlinker", "x", "-lm"]) for _ in range(6)]):
                 mreq.append((rt, py, la))
     mout, _, merr = run_lines([harness], ["meta %d %d %s" % (rt, py, hlist(la)) for rt, py, la in mreq])
     for (rt, py, la), o in zip(mreq, mout + ["(no answer)"] * (len(mreq) - len(mout))):
@@ -1250,6 +1335,7 @@ def run(ctx, args):
                                "package_cache_decisions_compared_with_model": res["pkg_builds"], "model_stale_predictions": res["model_stale_predictions"],
                                "metadata_roundtrips": len(mreq), "metadata_hit_vs_miss_compared": res.get("metadata_compared", 0)},
         "stale_lines_by_class": res["stale"],
+        "entry_module_recompilations": abistats, "map_range_sites": scan_map_ranges(),
         "ir_modules_compared": len(res["ir_modules"]), "ir_bytes_compared": res["ir_bytes"], "ir_differences": res["ir_differences"],
         "correspondence_mismatches": len(field_mm) + len(harmful) + len(res["real_coarser"]),
         "model_finer_notes": len(finer) + len(res["real_finer"]), "harmless_coarser_notes": len(coarser) - len(harmful),
